@@ -137,6 +137,8 @@ class RefServer:
             if self.cluster is None:
                 return b"ERROR\r\n"
             payload = self.cluster()
+            if isinstance(payload, tuple):      # ("raw", bytes): a scripted reply
+                return payload[1]
             return b"CONFIG cluster 0 " + str(len(payload)).encode() + b"\r\n" + payload + b"\r\nEND\r\n"
         return b"ERROR\r\n"
 
